@@ -284,6 +284,11 @@ def check_loops(ctx, long_polls):
         for scc in unexplained_loops(b):
             n += 1
             if k not in FROZEN_LOOPS:
+                from ..loops import counted_loop
+                cl = counted_loop(b, scc)
+                if cl is not None:
+                    ctx.ok(R6, "%s: counted loop on local _%d (%s by 1 per turn, constant start%s)" % (k, cl["counter"], cl["direction"], ", at most %s turns" % cl["bound"] if cl["bound"] is not None else ""))
+                    continue
                 ctx.fail(R6, where(b, scc[0]), "unbounded `loop`/`while` in %s (not iterator-driven, not an await loop, not in the frozen table)" % k,
                          [k, "unbounded-loop"])
                 continue
